@@ -72,12 +72,11 @@ def handle (toks : List String) : String :=
         | .ok t => "ok " ++ showRes t
         | .error e => showErr e)
     | "nested" =>
-      if toks.contains "E" then pure "rej:ValueError"
-      else
-        let (d, _) ← parseND ((toks.dropWhile (· ≠ "N")).drop 1)
-        pure (match d.toTree with
-          | .ok t => "ok " ++ showRes t
-          | .error e => showErr e)
+      let d ← if toks.contains "E" then some none
+        else (parseND ((toks.dropWhile (· ≠ "N")).drop 1)).map fun p => some p.1
+      pure (match NDict.nestedToTree d with
+        | .ok t => "ok " ++ showRes t
+        | .error e => showErr e)
     | "heap" =>
       let xs ← parseInts (← kv toks "xs")
       pure (match Heap.listToBinary xs with
